@@ -521,3 +521,13 @@ def WFMatch {C : Type} (N : NumEnv C) (docs : List PDoc) (target : Array IdTok) 
       ∃ p ∈ docs, p.doc.cat = m.matchType ∧ p.doc.name = m.name ∧ p.doc.variant = m.variant)
 
 end LC.V2Match
+
+namespace LC.V2Match
+
+def mapLines (f : Nat → Nat) (target : Array IdTok) : Array IdTok :=
+  target.map (fun t => { t with line := f t.line })
+
+def mapMatch {C : Type} (f : Nat → Nat) (m : Match C) : Match C :=
+  { m with startLine := f m.startLine, endLine := f m.endLine }
+
+end LC.V2Match
